@@ -1,6 +1,8 @@
 package checks
 
 import (
+	"time"
+
 	"github.com/consensys/gnark/logger"
 	"github.com/rs/zerolog"
 	"worldcoin/gnark-mbu/logging"
@@ -16,19 +18,32 @@ func init() {
 	*logging.Logger() = logging.Logger().Level(zerolog.Disabled)
 }
 
-// libIsolationHook is set by the scheduler build (-tags verif, instrumented prover package): the
-// two-thread interleaving exploration of the pure helpers (lib_sched.go). nil in the plain build.
-var libIsolationHook func(c *ev.Ctx, keyPrefix string, which []int) (execs, states, trans int64, complete bool)
+// pairScenario: two threads run F(0) and F(1) (the same repository code on different values);
+// each result must equal the result of the same call made sequentially.
+type pairScenario struct {
+	Name string
+	F    func(i int) string
+}
 
-// runLibIsolation adds the concurrent-callers phase to a sequential check when the build provides it.
-func runLibIsolation(c *ev.Ctx, which ...int) {
-	if libIsolationHook == nil {
+// pairIsolationHook is set by the scheduler build (-tags verif, instrumented repository packages):
+// exploration of every interleaving of the two threads up to a preemption bound (lib_sched.go).
+// nil in the plain build.
+var pairIsolationHook func(c *ev.Ctx, keyPrefix string, sc []pairScenario, deadline time.Time) (execs, states, trans int64, complete bool, per map[string]any)
+
+// runPairIsolation adds the concurrent-callers phase to a sequential check when the build provides it.
+func runPairIsolation(c *ev.Ctx, sc []pairScenario) {
+	if pairIsolationHook == nil {
 		c.Set("concurrent_callers", map[string]any{"explored": false, "note": "plain build: interleavings of concurrent callers not explored in this run"})
 		return
 	}
-	if c.NViolations() > 0 || c.Expired() {
+	if c.NViolations() > 0 {
 		return
 	}
-	e, s, t, done := libIsolationHook(c, "concurrent callers|", which)
-	c.Set("concurrent_callers", map[string]any{"explored": true, "helpers": which, "threads": 2, "preemption_bound": 2, "executions": e, "states": s, "transitions": t, "complete": done})
+	// own budget, so that a slow sequential phase cannot starve this one
+	budget := 150 * time.Second
+	if !c.Quick() {
+		budget = 20 * time.Minute
+	}
+	e, s, t, done, per := pairIsolationHook(c, "concurrent callers|", sc, time.Now().Add(budget))
+	c.Set("concurrent_callers", map[string]any{"explored": true, "threads": 2, "executions": e, "states": s, "transitions": t, "complete": done, "scenarios": per})
 }
